@@ -66,6 +66,7 @@ func main() {
 			for i := 0; i < nc; i++ {
 				bs = append(bs, kit.Batch{Name: fmt.Sprintf("component%d", i), Seed: seed*1000 + 500 + int64(i), N: n, Params: kit.MkParams(params{"component", v})})
 			}
+			bs = append(bs, kit.Batch{Name: "static-extra", Seed: seed*1000 + 900, N: 2})
 			return bs
 		},
 		Run: run,
@@ -527,6 +528,10 @@ func compare(c *kit.Case, t reflect.Type, want, got reflect.Value, js, how strin
 }
 
 func run(b kit.Batch, r *kit.R) {
+	if b.Name == "static-extra" {
+		runStaticExtra(b, r)
+		return
+	}
 	var p params
 	b.P(&p)
 	if p.Mode == "component" {
